@@ -11,6 +11,11 @@
     the reference calling the same target, finite log-target of every returned state, seed determinism
     (independent of the global numpy generator).
 (3) nuts-targets (mode P): count, seed determinism, finite log-target and finite coordinates of every state.
+(3b) nuts-trajectories (mode E): NUTS's uniform draws (direction of every doubling, acceptance inside and between
+    sub-trees) are the environment, answered from {0.25, 0.75}; complete trees of coin-flip sequences (one iteration,
+    <= 3 doublings) and deviation-bounded trees (more iterations / doublings) on the real nuts().  Leaf oracle per
+    iteration: every evaluated point is the next leapfrog step at one end of ONE trajectory through (previous state,
+    drawn momentum), and the returned state is a point of it inside the slice.
 (4) moments: fixed finite deterministic table (regression oracle, NOT exhaustive).
 """
 import hashlib
@@ -430,6 +435,322 @@ def run_nuts(case):
               nuts_states=n_iter, nuts_target_calls=calls[0], nuts_target_calls_outside_support=calls[1])
 
 
+# =============================================================================== (3b) NUTS trajectories (mode E)
+# NUTS's coin flips (direction of each doubling, acceptance inside and between sub-trees) are the environment: every
+# uniform draw is a choice from RAND_ANSWERS, momenta and the slice draw come from a real recorded stream.  Every
+# complete tree of coin-flip sequences is executed on the real nuts(); per iteration the oracle checks what any
+# No-U-Turn sampler does whatever its bookkeeping: the points it evaluates lie on ONE leapfrog trajectory through
+# (previous state, drawn momentum), they form a contiguous stretch of it, and the returned state is a point of that
+# stretch inside the slice.
+RAND_ANSWERS = [0.25, 0.75]
+
+
+def t_aniso(x):                                    # N(0, diag(1, 9))
+    return -0.5 * float(x[0] ** 2 + (x[1] / 3.0) ** 2)
+
+
+def g_aniso(x):
+    return -np.array([x[0], x[1] / 9.0])
+
+
+TARGETS['aniso'] = (t_aniso, g_aniso, {2: [[0.3, -2.0], [1.0, 4.0]]})
+
+
+class _NutsEnv:
+    """Stands in for the RandomState nuts() creates: uniform draws are choices, the rest is a real recorded stream."""
+
+    def __init__(self, ch, seed):
+        self.ch = ch
+        self.real = np.random.RandomState(seed)
+        self.iters = []          # per momentum draw: {'r0', 'exp', 'evals': [points]}
+        self.other = 0
+
+    def _u(self, size=None):
+        if size not in (None, (), 1):
+            self.other += 1
+            return self.real.random_sample(size)
+        return RAND_ANSWERS[self.ch.choose(len(RAND_ANSWERS), 'coin')]
+
+    def rand(self, *shape):
+        return self._u(shape if shape else None)
+
+    def random_sample(self, size=None):
+        return self._u(size)
+
+    random = random_sample
+
+    def uniform(self, low=0.0, high=1.0, size=None):
+        return low + (high - low) * self._u(size)
+
+    def _z(self, z):
+        z = np.asarray(z, dtype=float)
+        self.iters.append({'r0': z.copy().reshape(-1), 'exp': None, 'evals': []})
+        return z
+
+    def randn(self, *shape):
+        return self._z(self.real.randn(*shape))
+
+    def standard_normal(self, size=None):
+        return self._z(self.real.standard_normal(size))
+
+    def normal(self, loc=0.0, scale=1.0, size=None):
+        return loc + scale * self._z(self.real.standard_normal(size))
+
+    def exponential(self, scale=1.0, size=None):
+        e = self.real.exponential(scale, size)
+        if self.iters and self.iters[-1]['exp'] is None and size is None:
+            self.iters[-1]['exp'] = float(e)
+        return e
+
+    def __getattr__(self, name):
+        self.other += 1
+        return getattr(self.real, name)
+
+
+class _NpShim:
+    """`np` as seen by elfi.methods.mcmc while a scripted run executes: np.random.RandomState(seed) -> the environment."""
+
+    class _Rnd:
+        def __init__(self, env):
+            self._env = env
+
+        def RandomState(self, *a, **kw):
+            return self._env
+
+        def __getattr__(self, name):
+            return getattr(np.random, name)
+
+    def __init__(self, env):
+        self.random = _NpShim._Rnd(env)
+
+    def __getattr__(self, name):
+        return getattr(np, name)
+
+
+def _orbit_body(case):
+    import elfi.methods.mcmc as mcmc
+    tfn, gfn, starts = TARGETS[case['target']]
+    dim = case['dim']
+    p0 = np.array(starts[dim][case.get('start', 0)], dtype=float)
+
+    def body(ch):
+        env = _NutsEnv(ch, case['seed'])
+
+        def rec(x):
+            if env.iters:
+                env.iters[-1]['evals'].append(np.array(x, dtype=float).reshape(-1))
+
+        def target(x):
+            rec(x)
+            return tfn(x)
+
+        def grad(x):
+            rec(x)
+            return gfn(x)
+        obs = {'got': None, 'exc': None, 'env': env}
+        saved = mcmc.np
+        mcmc.np = _NpShim(env)
+        try:
+            with np.errstate(all='ignore'):
+                obs['got'] = np.asarray(mcmc.nuts(case['n_iter'], p0.copy(), target, grad, n_adapt=case['n_adapt'],
+                                                  max_depth=case['max_depth'], stepsize=case['stepsize'],
+                                                  seed=case['seed']), dtype=float)
+        except Exception as e:  # noqa
+            site = elfi_site(e.__traceback__)
+            if site is None:
+                raise
+            obs['exc'] = (type(e).__name__, site, repr(e)[:300])
+        finally:
+            mcmc.np = saved
+        return obs
+    return body, p0
+
+
+def _leapfrog(gfn, th, r, s):
+    r = r + 0.5 * s * gfn(th)
+    th = th + s * r
+    r = r + 0.5 * s * gfn(th)
+    return th, r
+
+
+def _first_step(th0, r0, g0, p1):
+    """all signed steps s with p1 == th0 + s*(r0 + s/2*g0) (a quadratic per coordinate: up to two in one dimension)"""
+    best = None
+    cands = []
+    d = p1 - th0
+    for j in range(len(th0)):
+        a, b, c = 0.5 * g0[j], r0[j], -d[j]
+        roots = []
+        if abs(a) < 1e-300:
+            if abs(b) > 1e-300:
+                roots = [-c / b]
+        else:
+            disc = b * b - 4 * a * c
+            if disc >= 0:
+                q = math.sqrt(disc)
+                roots = [(-b + q) / (2 * a), (-b - q) / (2 * a)]
+        for s in roots:
+            res = float(np.max(np.abs(th0 + s * (r0 + 0.5 * s * g0) - p1)))
+            if res <= 1e-9 * (1.0 + float(np.max(np.abs(p1)))) and s != 0 and \
+                    not any(abs(s - t) <= 1e-9 * abs(t) for t in cands):
+                cands.append(s)
+    return sorted(cands, key=abs)
+
+
+def _judge_orbit(case, obs, p0, stats):
+    if obs['exc']:
+        return ('C09:exception:%s@%s' % obs['exc'][:2], {'exception': obs['exc'][2]})
+    env, got = obs['env'], obs['got']
+    tfn, gfn, _ = TARGETS[case['target']]
+    n_iter, dim = case['n_iter'], case['dim']
+    if got.shape != (n_iter, dim):
+        return ('C09:nuts:wrong-number-of-states', {'shape': list(got.shape)})
+    if len(env.iters) != n_iter or any(it['exp'] is None for it in env.iters) or env.other:
+        stats['unjudged_random_stream_not_recognised'] += 1      # the kernel uses its generator in a way the environment
+        return None                                               # does not model: nothing is claimed
+    K = 2 ** (case['max_depth'] + 1)
+    prev = p0
+    for k, it in enumerate(env.iters):
+        r0, pts = it['r0'], it['evals']
+        info = {'iteration': k + 1, 'previous_state': _fmt(prev), 'momentum': _fmt(r0), 'returned': _fmt(got[k])}
+        new = [p for p in pts if not np.array_equal(p, prev)]
+        if not new:
+            return ('C09:nuts:iteration-without-a-leapfrog-step', info)
+        cands = _first_step(prev, r0, gfn(prev), new[0])
+        if not cands:
+            return ('C09:nuts:first-evaluated-point-is-not-a-leapfrog-step-from-the-current-state',
+                    dict(info, point=_fmt(new[0])))
+        verdicts = [_judge_iteration(case, it, prev, got[k].reshape(-1), abs(s_), K, info) for s_ in cands]
+        good = [v for v in verdicts if not isinstance(v, tuple)]
+        if not good:
+            return verdicts[0]
+        lo, hi, j, n_used = good[0]['ok']
+        stats['iterations'] += 1
+        stats['trajectory_points'] += n_used
+        stats['max_trajectory'] = max(stats['max_trajectory'], n_used)
+        stats['backward_stretch_ge_3'] += int(lo <= -3)
+        stats['moved'] += int(j != 0)
+        stats['outcomes'].add((k, lo, hi, j))
+        prev = got[k].reshape(-1)
+    return None
+
+
+def _judge_iteration(case, it, prev, returned, eps, K, info):
+    """one iteration against the leapfrog trajectory of step eps through (prev, momentum) -> violation | (lo, hi, j, n)"""
+    tfn, gfn, _ = TARGETS[case['target']]
+    r0, pts = it['r0'], it['evals']
+    if True:
+        orbit = {0: (prev, r0)}
+        th, r = prev, r0
+        for j in range(1, K + 1):
+            th, r = _leapfrog(gfn, th, r, eps)
+            orbit[j] = (th, r)
+        th, r = prev, r0
+        for j in range(1, K + 1):
+            th, r = _leapfrog(gfn, th, r, -eps)
+            orbit[-j] = (th, r)
+        scale = 1.0 + max(float(np.max(np.abs(o[0]))) for o in orbit.values())
+
+        def at(p, i):
+            return i in orbit and float(np.max(np.abs(orbit[i][0] - p))) <= 1e-8 * scale
+        # the trajectory grows by one leapfrog step at either end; a point evaluated again is a point already on it
+        # (checked in this order because a trajectory may be periodic: equal positions at different indices)
+        lo = hi = 0
+        for p in pts:
+            if any(at(p, i) for i in range(lo, hi + 1)):
+                continue
+            if at(p, hi + 1):
+                hi += 1
+            elif at(p, lo - 1):
+                lo -= 1
+            else:
+                return ('C09:nuts:evaluated-point-is-not-the-next-leapfrog-step-of-the-trajectory',
+                        dict(info, point=_fmt(p), stepsize=eps, trajectory_indices_so_far=[lo, hi]))
+        js = [i for i in range(lo, hi + 1) if at(returned, i)]
+        if not js:
+            return ('C09:nuts:returned-state-is-not-a-point-of-the-trajectory', dict(info, indices=[lo, hi]))
+        joint0 = float(tfn(prev)) - 0.5 * float(r0 @ r0)
+
+        def in_slice(i):
+            th_i, r_i = orbit[i]
+            return i == 0 or float(tfn(th_i)) - 0.5 * float(r_i @ r_i) >= joint0 - it['exp'] - 1e-9 * (1.0 + abs(joint0))
+        if not any(in_slice(i) for i in js):
+            return ('C09:nuts:returned-state-outside-the-slice', dict(info, index=js[0], log_slice=joint0 - it['exp']))
+        j = 0 if 0 in js else js[0]
+        used = range(lo, hi + 1)
+        return {'ok': (lo, hi, j, len(used))}
+
+
+@guarded('C09')
+def run_orbit_tree(case):
+    import collections
+    body, p0 = _orbit_body(case)
+    stats = collections.Counter()
+    stats['outcomes'] = set()
+
+    def strip(obs):
+        return obs
+    explore.determinism_selftest(lambda ch: {'got': _fmt(body(ch)['got'])}, [1, 1])
+
+    def check(obs, run):
+        return _judge_orbit(case, obs, p0, stats)
+    st = explore.explore(body, check, bound=case.get('bound'))
+    res = ok(outcome=None, trivial=False, orbit_iterations=stats['iterations'],
+             orbit_trajectory_points=stats['trajectory_points'],
+             orbit_backward_stretch_ge_3=stats['backward_stretch_ge_3'], orbit_moved=stats['moved'],
+             orbit_unjudged_random_stream_not_recognised=stats['unjudged_random_stream_not_recognised'],
+             orbit_choice_points=st['choice_points'], orbit_trees=1, orbit_capped=int(st.get('capped', 0)))
+    res.update(evals=st['executions'], distinct=st.get('complete', st['executions']),
+               outcome_list=[hashlib.md5(repr((sorted(case.items()), o)).encode()).hexdigest() for o in stats['outcomes']],
+               transitions=st['choice_points'], validated=st.get('complete', 0))
+    res['max_traj'] = stats['max_trajectory']
+    if st['violations']:
+        (sig, detail), choices = min(st['violations'],
+                                     key=lambda vc: (len(vc[1]), sum(1 for c in vc[1] if c), vc[1]))
+        res['viol'] = {'sig': sig, 'detail': jsonable(dict(detail, choices=choices,
+                                                           n_violating_sequences=len(st['violations'])))}
+        res['witness_choices'] = choices
+    return res
+
+
+@guarded('C09')
+def run_orbit_one(case):
+    import collections
+    body, p0 = _orbit_body(case)
+    run = explore.run_once(body, list(case['choices']))
+    stats = collections.Counter()
+    stats['outcomes'] = set()
+    v = _judge_orbit(case, run.obs, p0, stats)
+    if v:
+        return bad(v[0], v[1])
+    return ok(outcome=hashlib.md5(np.asarray(run.obs['got']).tobytes()).hexdigest())
+
+
+def _orbit_cases(ctx):
+    q = ctx.quick
+    base = ctx.seed * 1000
+    cases = []
+    for target, dim in (('norm', 1), ('norm', 2), ('aniso', 2)):
+        for step in (0.1, 0.6):
+            for seed in ([base, base + 1] if q else [base + k for k in range(4)]):
+                for start in (0, 1):
+                    if q and start == 1 and target != 'aniso':
+                        continue
+                    common = {'kind': 'orbit', 'target': target, 'dim': dim, 'stepsize': step, 'seed': seed,
+                              'start': start, 'n_adapt': 0}
+                    # complete trees: one iteration, up to three doublings
+                    cases.append(dict(common, n_iter=1, max_depth=2))
+                    if not q:
+                        cases.append(dict(common, n_iter=1, max_depth=1))
+                    # deeper / longer: at most `bound` coin flips differ from the default answer
+                    cases.append(dict(common, n_iter=2, max_depth=2, bound=3 if q else 5))
+                    cases.append(dict(common, n_iter=1, max_depth=3, bound=3 if q else 5))
+                    if not q:
+                        cases.append(dict(common, n_iter=3, max_depth=3, bound=3, n_adapt=1))
+    return cases
+
+
+
 # =============================================================================== (4) moments (regression oracle)
 MOMENT_TARGETS = {
     # name: (target key, true mean, true variance per coordinate)
@@ -477,7 +798,8 @@ def run_moments(case):
               moments_rows_beyond_3_mcse=int(zmax > 3))
 
 
-RUNNERS = {'mtree': run_mtree, 'mseq': run_mseq, 'mdet': run_mdet, 'mreal': run_mreal, 'nuts': run_nuts, 'moments': run_moments}
+RUNNERS = {'mtree': run_mtree, 'mseq': run_mseq, 'mdet': run_mdet, 'mreal': run_mreal, 'nuts': run_nuts, 'moments': run_moments,
+           'orbit': run_orbit_tree, 'orbit1': run_orbit_one}
 
 
 def replay(case):
@@ -615,6 +937,19 @@ def run(ctx):
     if want('nuts-targets'):
         cases = _nuts_cases(ctx)
         ctx.run_cases(run_nuts, cases, 'nuts-targets', sample_every=max(1, len(cases) // 3))
+    if want('nuts-trajectories'):
+        cases = _orbit_cases(ctx)
+
+        def fo(case):
+            return case, run_orbit_tree(case)
+        for i, (case, res) in enumerate(par.pmap(fo, cases, chunksize=1, ordered=True)):
+            if res.get('viol') and 'witness_choices' in res:
+                case = dict({k: v for k, v in case.items() if k != 'bound'}, kind='orbit1', choices=res['witness_choices'])
+            ctx.extra['nuts_max_trajectory_points'] = max(ctx.extra.get('nuts_max_trajectory_points', 0),
+                                                          res.pop('max_traj', 0) if isinstance(res, dict) else 0)
+            if i % max(1, len(cases) // 3) == 0:
+                ctx.add_sample({'case': case, 'coin_flip_sequences': res.get('evals')}, key=('orbit', i))
+            ctx.record(case, res, 'nuts-trajectories')
     if want('moments'):
         cases = _moment_cases(ctx)
         ctx.run_cases(run_moments, cases, 'moments', chunksize=1)
@@ -625,7 +960,10 @@ def run(ctx):
         'real metropolis(); evaluations = runs, distinct_nontrivial = distinct answer sequences; states = distinct kernel '
         'states (configuration, step, set of accepted steps, current log-target), transitions = distinct (state, answer). '
         'metropolis-targets / nuts-targets: full product target x dim x configuration x start x seed, one case = one '
-        'seeded run (executed twice for determinism); distinct by case content. moments: fixed table.')
+        'seeded run (executed twice for determinism); distinct by case content. nuts-trajectories: one case = the tree of '
+        'coin-flip sequences of a (target, dim, stepsize, start, seed, n_iter, max_depth) configuration - complete for one '
+        'iteration with max_depth <= 2, otherwise all sequences with at most `bound` non-default flips; evaluations = runs '
+        'of the real nuts(). moments: fixed table.')
     ctx.assumptions += [
         'scripted answers: A7 = {-1, 0, -3, +2, -inf, +inf, NaN}, and A9 = A7 + {+800, -800} at <= 3 steps (thorough <= 4); '
         'chains of n_samples + warm-up <= %d steps, n_samples >= 1, warm-up 0..2, dim 1..2, sigma in {0.5 scalar, per-'
@@ -640,8 +978,14 @@ def run(ctx):
         'n_samples = 0 / n_iter = 0 (empty request) is not explored',
         'real targets return scalars (float / np.float64) as the docstrings ask; size-1 array returns are not in the '
         'alphabet (numpy-2 float(array) drift at _build_tree_nuts belongs to the acquisition callers, C11)',
-        'NUTS has no reference chain: only count, seed determinism (incl. independence of the global numpy generator), '
-        'finite coordinates and finite log-target of every returned state are decided',
+        'NUTS has no reference chain: count, seed determinism (incl. independence of the global numpy generator), '
+        'finite coordinates and finite log-target of every returned state are decided on real seeded runs; '
+        'nuts-trajectories adds what every No-U-Turn sampler satisfies whatever its bookkeeping: evaluated points extend '
+        'one leapfrog trajectory (step size inferred from the first step of the iteration, identity mass matrix) by one '
+        'step at either end, the returned state is a trajectory point with log joint >= log joint of the start minus the '
+        'drawn exponential. Targets N(0,1), N(0,I2), N(0,diag(1,9)); given initial step 0.1 / 0.6; the generator nuts() '
+        'creates is replaced through the module attribute np of elfi.methods.mcmc; a kernel that uses its generator in '
+        'another way than (normal momenta, one exponential, scalar uniforms) is counted unjudged, not reported',
         'MOMENTS IS A REGRESSION ORACLE, NOT EXHAUSTIVE: fixed seeds 0..%d (independent of VERIF_SEED), 2000 kept '
         'iterations, N(0,1), N(0,I2)%s; mean and variance within 5 MCSE (reference ESS: direct autocovariance sums, '
         'Geyer initial positive sequence, capped at n); a statistical sub-claim cannot be decided by enumeration'
